@@ -102,7 +102,7 @@ def correspondence(ctx: Ctx):
 
     rng = ctx.rng
     cap = 700
-    reps = ctx.budget(1, 6)
+    reps = ctx.budget(2, 10)
     for _ in range(reps):
         for rank in range(1, 7):
             shape = _shape(rng, rank, cap)
@@ -180,7 +180,7 @@ def _fft_cases(ctx: Ctx):
     import direct.data.transforms as T
 
     rng = ctx.rng
-    per_tuple = ctx.budget(4, 16)
+    per_tuple = ctx.budget(8, 16)
     combos = [(c, n, ci, inv) for c in (1, 0) for n in (1, 0) for ci in (1, 0) for inv in (0, 1)]
     k = 0
     for rank in range(2, 7):
@@ -407,24 +407,34 @@ def oracle(ctx: Ctx, deep: bool = False):
                     tag = "odd" if odd else "even"
                     ctx.count(("shift", tuple(shape), dims), any(shape[a] >= 2 for a in dims), bucket=f"oracle/shift-{tag}")
                     for nm, fn, ref in (("fftshift", T.fftshift, np.fft.fftshift), ("ifftshift", T.ifftshift, np.fft.ifftshift)):
-                        got = fn(x, dim=list(dims)).numpy()
                         exp = ref(x.numpy(), axes=dims)
-                        if got.shape != exp.shape or not np.array_equal(got, exp):
+                        try:
+                            got = fn(x, dim=list(dims)).numpy()
+                            ok, obs = got.shape == exp.shape and np.array_equal(got, exp), got.tolist()
+                        except Exception as e:  # noqa: BLE001
+                            ok, obs = False, f"raises {err_name(e)}"
+                        if not ok:
                             yield Violation(f"shift-numpy/{nm}-{tag}", f"{nm} differs from numpy.fft.{nm}",
-                                            {"op": nm, "shape": shape, "dims": list(dims), "expected": exp.tolist(),
-                                             "observed": got.tolist()})
+                                            {"op": nm, "shape": shape, "dims": list(dims), "expected": exp.tolist(), "observed": obs})
                     for nm, a, b in (("fftshift(ifftshift(x))", T.ifftshift, T.fftshift), ("ifftshift(fftshift(x))", T.fftshift, T.ifftshift)):
-                        back = b(a(x, dim=list(dims)), dim=list(dims))
-                        if not torch.equal(back, x):
+                        try:
+                            back = b(a(x, dim=list(dims)), dim=list(dims))
+                            ok, obs = torch.equal(back, x), back.tolist()
+                        except Exception as e:  # noqa: BLE001
+                            ok, obs = False, f"raises {err_name(e)}"
+                        if not ok:
                             yield Violation(f"shift-inverse-{tag}", f"{nm} != x",
                                             {"op": "shift-inverse", "which": nm, "shape": shape, "dims": list(dims),
-                                             "expected": x.tolist(), "observed": back.tolist()})
+                                             "expected": x.tolist(), "observed": obs})
     # 1-D exhaustive: lengths 1..16 (1..40 deep)
     for n in range(1, 41 if big else 17):
         x = _arange([n])
         ctx.count(("shift1d", n), n >= 2, bucket="oracle/shift-1d-" + ("odd" if n % 2 else "even"))
         for nm, fn, ref in (("fftshift", T.fftshift, np.fft.fftshift), ("ifftshift", T.ifftshift, np.fft.ifftshift)):
-            got = fn(x).numpy()
+            try:
+                got = fn(x).numpy()
+            except Exception as e:  # noqa: BLE001
+                got = np.array([f"raises {err_name(e)}"])
             if not np.array_equal(got, ref(x.numpy())):
                 yield Violation(f"shift-numpy/{nm}-" + ("odd" if n % 2 else "even"), f"{nm} differs from numpy.fft.{nm}",
                                 {"op": nm, "shape": [n], "dims": [0], "expected": ref(x.numpy()).tolist(), "observed": got.tolist()})
